@@ -114,10 +114,28 @@ class Catalogue:
                 return tgt[2].qual, tgt[2], None
             if tgt[0] == "closure":
                 env, selfterm, fi = self.eng._closure_env[tgt[2]]
+                # one callback defined once and armed for several registries (a helper that takes the registry as an argument and the
+                # closure captures it): one timer context per registry captured, so that each knows whose requests it handles
+                own = set(fi.locals)
+                used = {x.id for x in ast.walk(fi.node) if isinstance(x, ast.Name)}
+                regs = sorted({v[1] for k, v in env.items() if k in used and k not in own and isinstance(v, tuple) and v[:1] == ("regtop",)})
+                if regs:
+                    fi = self._specialised(fi, "@" + "+".join(regs))
                 return fi.qual, fi, env
             if tgt[0] == "func" and getattr(tgt[1], "cls", None) is None and getattr(tgt[1], "parent", None) is None:
                 return tgt[1].qual, tgt[1], None
         return None, None, None
+
+    def _specialised(self, fi, suffix):
+        import copy
+        cache = self.__dict__.setdefault("_spec", {})
+        k = (fi.qual, suffix)
+        if k not in cache:
+            c = copy.copy(fi)
+            c.orig_qual = fi.qual
+            c.qual = fi.qual + suffix
+            cache[k] = c
+        return cache[k]
 
     def _closure_paths(self, func, env):
         from .interp import St
@@ -132,12 +150,14 @@ class Catalogue:
                 outer[k] = v
             elif isinstance(v, tuple) and v and v[0] == "new" and v in eng.init_heap.values():
                 outer[k] = v          # an object of the constructor chain (e.g. the keepalive bookkeeping object): the same one later
+            elif isinstance(v, tuple) and v[:1] == ("regtop",) and hasattr(func, "orig_qual"):
+                outer[k] = v          # the registry this instance of the callback was made for
             elif k == "request" and func.parent is not None and func.parent.name == "doConnect":
                 outer[k] = ("captured", k)
             else:
                 outer[k] = ("param", k)     # typed like a timer parameter, from what was captured at the arming sites
         outer["self"] = SELF
-        for k, (o, field) in getattr(eng, "_closure_alias", {}).get(func.qual, {}).items():
+        for k, (o, field) in getattr(eng, "_closure_alias", {}).get(getattr(func, "orig_qual", func.qual), {}).items():
             if o in outer:
                 outer[k] = ("attr", outer[o], field)
         return list(eng.run(func, {}, st, SELF, outer_env=outer))
